@@ -35,6 +35,7 @@ func TestMain(m *testing.M) {
 	if os.Getenv("VERIF_LOG") == "" { // ipchub logs every failed pull; keep stderr readable
 		xlog.ReplaceGlobal(xlog.New(xlog.NewCore(xlog.NewConsoleEncoder(xlog.LstdFlags), xlog.Lock(&logs), xlog.InfoLevel)))
 	}
+	server() // started first, so that its permanent goroutines and sockets are part of every baseline
 	evid.Main(m, "C20")
 }
 
@@ -129,15 +130,22 @@ func enumeration() []*scenario {
 			}
 		}
 	}
+	// all-ok cameras behind every shape of route URL
+	for _, shape := range []string{"nopath", "root", "query", "deep"} {
+		sc := mk(fakecam.Options, fakecam.Behaviour{})
+		sc.URLShape = shape
+		sc.Name = "all ok, route URL shape " + shape
+		out = append(out, sc)
+	}
 	return out
 }
 
-func runBatch(t *testing.T, name string, scs []*scenario, rq requester) {
+func runBatch(t *testing.T, name string, scs []*scenario) {
 	failed := map[string]*scenario{}
 	msgs := map[string]string{}
 	for _, sc := range scs {
 		serial.Lock()
-		res := runScenario(sc, rq)
+		res := runScenario(sc, requesterFor(sc.Mode))
 		serial.Unlock()
 		evid.Eval(1)
 		classify(sc, res)
@@ -168,7 +176,79 @@ func TestSingleFaultEnumeration(t *testing.T) {
 	evid.Assume("the fake camera is trusted (self-tests in lib/fakecam: RFC 2617 §3.5 worked example, ipchub's and RFC 2326's own request samples, a hand-written client)")
 	scs := enumeration()
 	evid.ClassN("enumerated (step x behaviour) pairs", int64(len(scs)))
-	runBatch(t, "single-fault", scs, directRequester{})
+	runBatch(t, "single-fault", scs)
+}
+
+// playEndings builds every way the play phase can end.
+func playEndings() []*scenario {
+	var out []*scenario
+	for end := fakecam.Continue; end < fakecam.NumAfters; end++ {
+		variants := 1
+		if end == fakecam.AfterGarbage {
+			variants = fakecam.GarbageVariants
+		}
+		for v := 0; v < variants; v++ {
+			for cons := 0; cons <= 2; cons++ {
+				for _, initial := range []int{0, 5} {
+					sc := &scenario{Audio: cons != 1, Creds: "right", User: "admin", Pass: "pw", Initial: initial, Consumers: cons, Live: 6,
+						End: int(end), EndVariant: v, Mode: "direct", FollowUp: true, CacheGop: initial == 0, Paced: cons == 2 && initial == 5, SessionTimeout: cons == 1}
+					sc.Name = fmt.Sprintf("play ends by %s/%d with %d consumers", end, v, cons)
+					out = append(out, sc)
+				}
+			}
+			if end != fakecam.Continue {
+				// the end comes right behind the PLAY answer / the first frames, racing the start of the play loop
+				for _, initial := range []int{0, 2} {
+					sc := &scenario{Audio: true, Creds: "right", User: "admin", Pass: "pw", Initial: initial, End: int(end), EndVariant: v, AutoFinish: true, Mode: "direct", FollowUp: true}
+					sc.Name = fmt.Sprintf("play ends by %s/%d at once", end, v)
+					out = append(out, sc)
+				}
+			}
+		}
+	}
+	return out
+}
+
+// TestPlayEndings: disconnects, stalls and garbage at any time during play,
+// with and without consumers.
+func TestPlayEndings(t *testing.T) {
+	scs := playEndings()
+	evid.ClassN("enumerated play endings", int64(len(scs)))
+	runBatch(t, "play-ending", scs)
+}
+
+// TestEndToEnd: the enumerated scenarios again, requested through the
+// in-process server by an RTSP player (OPTIONS, DESCRIBE, SETUP, PLAY; checks the
+// interleaved frames it receives), an HTTP-FLV GET and an HLS playlist GET. The
+// quick tier takes every third scenario per mode (each pair is met in one of
+// the three modes); HLS takes the refusing cameras only, because a playlist
+// request for a live stream waits for three segments.
+func TestEndToEnd(t *testing.T) {
+	var scs []*scenario
+	all := append(enumeration(), playEndings()...)
+	for i, sc := range all {
+		for m, mode := range []string{"rtsp", "flv", "hls"} {
+			if !evid.Thorough() && i%3 != m {
+				continue
+			}
+			e, _, _ := sc.expect()
+			if mode == "hls" && e != mustFail {
+				continue
+			}
+			c := *sc
+			c.Mode = mode
+			if mode == "rtsp" {
+				c.CacheGop = false
+			}
+			c.FollowUp = i%2 == 0
+			scs = append(scs, &c)
+		}
+	}
+	evid.ClassN("end-to-end scenarios", int64(len(scs)))
+	for _, sc := range scs {
+		evid.Class("requested through " + sc.Mode)
+	}
+	runBatch(t, "end-to-end", scs)
 }
 
 // TestReplayFile re-runs one saved scenario.
@@ -196,6 +276,36 @@ func TestReplayFile(t *testing.T) {
 	}
 }
 
-func requesterFor(mode string) requester {
-	return directRequester{}
+// TestSequentialRequests: when a request has succeeded the stream is under the
+// requested path, so requests that follow at once are served by it — the camera
+// sees one connection, not one per request.
+func TestSequentialRequests(t *testing.T) {
+	rounds := 25
+	if evid.Thorough() {
+		rounds = 300
+	}
+	for round := 0; round < rounds; round++ {
+		sc := &scenario{Name: "sequential requests", Audio: round%2 == 0, Creds: "right", User: "admin", Pass: "pw", Initial: round % 4, Mode: "direct"}
+		if round%3 == 1 {
+			sc.Steps[fakecam.Describe] = fakecam.Behaviour{Kind: fakecam.Digest401, N: 1}
+		}
+		n := 2 + round%3
+		serial.Lock()
+		res := sequential(sc, n)
+		serial.Unlock()
+		evid.Eval(1)
+		evid.Nontrivial(evid.FP("sequential", round))
+		evid.Class(fmt.Sprintf("sequential: %d requests one after the other", n))
+		if len(res.failures) > 0 {
+			evid.Violation(t, "sequential/"+res.failures[0].check, sc, "%s", joinFailures(res.failures))
+		}
+	}
+}
+
+func joinFailures(fs []fail) string {
+	var b strings.Builder
+	for _, f := range fs {
+		fmt.Fprintf(&b, "\n- %s: %s", f.check, f.msg)
+	}
+	return b.String()
 }
